@@ -9,9 +9,13 @@ From CBI Require Import Lib.Res Lib.Data Model.C01 Spec.C01.
 Import ListNotations.
 Local Open Scope string_scope.
 
-Inductive mval := VEmpty | VInt (z : Z).
+(* VRef m: the replacement list is the single identifier m (#define A B) *)
+Inductive mval := VEmpty | VInt (z : Z) | VRef (m : string).
 Definition mval_eqb (a b : mval) : bool :=
-  match a, b with VEmpty, VEmpty => true | VInt x, VInt y => Z.eqb x y | _, _ => false end.
+  match a, b with
+  | VEmpty, VEmpty => true | VInt x, VInt y => Z.eqb x y | VRef x, VRef y => String.eqb x y
+  | _, _ => false
+  end.
 
 Definition env := list (string * mval).
 Fixpoint lookup (m : string) (e : env) : option mval :=
@@ -51,13 +55,23 @@ Definition exec_S (a : act) (p : pstate) : res pstate :=
   | AUndef m => Ok {| marks := marks p; menv := remove m (menv p) |}
   end.
 
-(* value of an identifier in #if: undefined -> 0, empty -> no expression (diagnosed) *)
-Definition ident_val (m : string) (e : env) : res Z :=
+(* value of an identifier in #if: undefined -> 0, empty -> no expression (diagnosed); a macro
+   whose replacement is another identifier is expanded in the CURRENT table (rescanning); a name
+   that is already being expanded is not expanded again and, like every identifier that
+   survives expansion, counts as 0 *)
+Fixpoint ident_val_f (fuel : nat) (seen : list string) (m : string) (e : env) : res Z :=
   match lookup m e with
   | None => Ok 0%Z
   | Some (VInt z) => Ok z
   | Some VEmpty => Err "ParseError: empty expansion in expression"
+  | Some (VRef m') =>
+      if existsb (String.eqb m') (m :: seen) then Ok 0%Z
+      else match fuel with
+           | 0 => Err "OutOfFuel: alias chain"
+           | S f => ident_val_f f (m :: seen) m' e
+           end
   end.
+Definition ident_val (m : string) (e : env) : res Z := ident_val_f (S (List.length e)) [] m e.
 
 Definition ev (c : cond) (p : pstate) : res bool :=
   let e := menv p in
@@ -76,7 +90,10 @@ Definition run_Si := run_S pstate act cond mark exec_S ev.
 
 (* ---------- codec ---------- *)
 Definition dec_mval (d : data) : option mval :=
-  match d with DInt z => Some (VInt z) | DStr "E" => Some VEmpty | _ => None end.
+  match d with
+  | DInt z => Some (VInt z) | DStr "E" => Some VEmpty | DList [DStr "R"; DStr m] => Some (VRef m)
+  | _ => None
+  end.
 Definition dec_cond (d : data) : option cond :=
   match d with
   | DList [DStr "Defd"; DStr m] => Some (CDefd m)
@@ -105,7 +122,8 @@ Fixpoint number {A} (n : nat) (l : list A) : list (nat * A) :=
 Definition dec_env (d : data) : option env :=
   as_list_of (as_pair as_str dec_mval) d.
 
-Definition enc_mval (v : mval) : data := match v with VEmpty => DStr "E" | VInt z => DInt z end.
+Definition enc_mval (v : mval) : data :=
+  match v with VEmpty => DStr "E" | VInt z => DInt z | VRef m => DList [DStr "R"; DStr m] end.
 Definition enc_out (r : res pstate) : data :=
   match r with
   | Ok p => DList [DStr "Ok"; of_list of_nat (rev (marks p));
